@@ -96,6 +96,24 @@ func main() {
 			t.Trailer = append(t.Trailer[:at], append([]*gen.Node{sum}, t.Trailer[at:]...)...)
 			c.SetAdd("checksum_member_position_in_trailer", fmt.Sprintf("%d-of-%d", at, len(t.Trailer)))
 		}
+		if i%6 == 3 {
+			// the header template declares members for the framing tags themselves (a header built from the complete
+			// dictionary, or a parsed message relayed): whatever is populated there is serialized and counted like any field
+			var which []string
+			for k, tag := range []string{t.FT.Begin, t.FT.Len, t.FT.Type} {
+				if r.Intn(2) == 0 {
+					continue
+				}
+				kind := gen.KString
+				if k == 1 {
+					kind = []gen.Kind{gen.KInt, gen.KString}[r.Intn(2)]
+				}
+				at := r.Intn(len(t.Header) + 1)
+				t.Header = append(t.Header[:at], append([]*gen.Node{{NK: gen.NField, Tag: tag, VK: kind}}, t.Header[at:]...)...)
+				which = append(which, []string{"BeginString", "BodyLength", "MsgType"}[k])
+			}
+			c.SetAdd("framing_tags_declared_as_header_members", strings.Join(which, "+"))
+		}
 		// steering field: a String in the body
 		steerTag := "7"
 		for used := map[string]bool{}; ; {
